@@ -102,21 +102,23 @@ def rule_census(ctx, crates):
 
 # -- class a: grid views -------------------------------------------------------------------------------
 class Bounded:
-    """is an integer operand of an unsafe call bounded at a program point?  least fixpoint described in DESIGN.md"""
+    """is an integer operand of an unsafe call upper-bounded at a program point?
+    Relations `small <= big` are read from ordering comparisons together with the switch edge on which they hold; a value is
+    bounded if it is a constant, an extent of the view (self.width/height/stride, a slice length), the small side of a relation
+    that holds at the point and whose big side is bounded, min() of something bounded, or arithmetic that cannot exceed bounded
+    inputs (a+b, a*b: both; a-b, a/b, a>>b, a%b, a&b: the left / either side)."""
 
     def __init__(self, f):
         self.f = f
         self.defs = Defs(f)
-        self.cmp_blocks = {}   # local -> blocks where it is an operand of an ordering comparison (through moves/casts)
-        self.alias = {}
+        self.rel = []   # (small_operand, big_operand, block, edge)
         self._scan()
+        self._reach_cache = {}
 
-    def root(self, l, depth=0):
-        """follow whole-local moves/copies/int casts backwards"""
+    def root(self, l):
         seen = set()
-        while l not in seen and depth < 50:
+        while l not in seen:
             seen.add(l)
-            depth += 1
             d = self.defs.single(l)
             if not d or d[2] != "assign":
                 return l
@@ -134,12 +136,64 @@ class Bounded:
             return l
         return l
 
-    def back_slice(self, l, depth=0, acc=None):
-        """roots of the locals an integer value is computed from (moves, casts, arithmetic)"""
+    def _scan(self):
+        f = self.f
+        for b, blk in enumerate(f.blocks):
+            t = blk[1]
+            if t[0] != "switch":
+                continue
+            l = op_local(t[1])
+            if l is None:
+                continue
+            neg = False
+            cmp_rv = None
+            cur = l
+            for _ in range(4):
+                st = None
+                for s2 in reversed(blk[0]):
+                    if s2[0] == "=" and s2[1] == [cur]:
+                        st = s2
+                        break
+                if st is None:
+                    break
+                rv = st[2]
+                if rv[0] == "bin" and rv[1] in ORDER:
+                    cmp_rv = rv
+                    break
+                if rv[0] == "un" and rv[1] == "Not":
+                    neg = not neg
+                    cur = op_local(rv[2])
+                    continue
+                if rv[0] == "use":
+                    cur = op_local(rv[1])
+                    continue
+                break
+            if cmp_rv is None:
+                continue
+            a, c = cmp_rv[2], cmp_rv[3]
+            zero = [x for v, x in t[2] if v == "0"]
+            if not zero:
+                continue
+            false_edge = (b, zero[0], "0")
+            true_edge = (b, t[3], "otherwise")
+            if neg:
+                false_edge, true_edge = true_edge, false_edge
+            op = cmp_rv[1]
+            # (small, big) on the true edge / on the false edge
+            if op in ("Lt", "Le"):
+                self.rel.append((a, c, true_edge))
+                self.rel.append((c, a, false_edge))
+            else:
+                self.rel.append((c, a, true_edge))
+                self.rel.append((a, c, false_edge))
+
+    def mono_slice(self, l, depth=0, acc=None):
+        """roots of the values that the (unsigned) value l is a monotone function of: through moves, casts, +, * and the
+        left side of -  (if x*y + z <= B then the view described by x, y, z fits in B)"""
         if acc is None:
             acc = set()
         r = self.root(l)
-        if r in acc or depth > 12:
+        if r in acc or depth > 10:
             return acc
         acc.add(r)
         for d in self.defs.of(r):
@@ -147,87 +201,108 @@ class Bounded:
                 continue
             rv = d[3][2]
             ops = []
-            if rv[0] == "bin" and rv[1] in ARITH:
-                ops = [rv[2], rv[3]]
-            elif rv[0] in ("use", "un"):
-                ops = [rv[1] if rv[0] == "use" else rv[2]]
+            if rv[0] == "bin":
+                op = rv[1].replace("WithOverflow", "").replace("Unchecked", "")
+                if op in ("Add", "Mul"):
+                    ops = [rv[2], rv[3]]
+                elif op == "Sub":
+                    ops = [rv[2]]
+            elif rv[0] == "use":
+                ops = [rv[1]]
             elif rv[0] == "cast":
                 ops = [rv[2]]
             for o in ops:
                 p = op_place(o)
                 if p is not None:
-                    self.back_slice(p[0], depth + 1, acc)
+                    self.mono_slice(p[0], depth + 1, acc)
         return acc
 
-    def _scan(self):
-        f = self.f
-        for b, blk in enumerate(f.blocks):
-            for st in blk[0]:
-                if st[0] == "=" and st[2][0] == "bin" and st[2][1] in ORDER:
-                    for o in (st[2][2], st[2][3]):
-                        l = op_local(o)
-                        if l is not None:
-                            for r in self.back_slice(l):
-                                self.cmp_blocks.setdefault(r, set()).add(b)
+    def holds_at(self, edge, at):
+        k = (edge, at)
+        if k not in self._reach_cache:
+            from ..mirutil import find_path_edges
+            self._reach_cache[k] = find_path_edges(self.f, [0], lambda x: x == at, avoid_edge=lambda x, s, lab: (x, s, lab) == edge) is None and at != 0
+        return self._reach_cache[k]
 
-    def ok(self, o, at, depth=0):
-        if depth > 25:
+    def ok(self, o, at, depth=0, visiting=None):
+        if depth > 20:
             return False
         if op_const_int(o) is not None:
             return True
         p = op_place(o)
         if p is None:
-            return True  # non-integer constant
+            return True
         f = self.f
         if len(p) > 1:
-            # a field load: self.width / self.height / self.stride / tuple element of a checked op
             flds = place_fields(p)
             if flds and flds[-1][0] in ("width", "height", "stride"):
                 return True
-            if flds and flds[-1][0] is None or (flds and flds[-1][0] in ("0", "1")):
-                return self.ok(["c", [p[0]]], at, depth + 1)
+            # tuple element of a checked operation: (_t.0)
+            if all(isinstance(e, list) and e[0] == "." for e in p[1:]):
+                return self.ok(["c", [p[0]]], at, depth + 1, visiting)
             return False
         l = p[0]
         r = self.root(l)
-        if any(f.dominates(cb, at) for cb in self.cmp_blocks.get(r, ())):
-            return True
-        if any(f.dominates(cb, at) for cb in self.cmp_blocks.get(l, ())):
-            return True
+        visiting = visiting or set()
+        if r in visiting:
+            return False
+        visiting = visiting | {r}
+        # relations
+        for small, big, edge in self.rel:
+            sl = op_local(small)
+            if sl is None or r not in self.mono_slice(sl):
+                continue
+            if not self.holds_at(edge, at):
+                continue
+            if self.ok(big, at, depth + 1, visiting):
+                return True
         ds = [d for d in self.defs.of(r) if not f.is_cleanup(d[0])]
         if not ds:
-            return False   # a parameter that was never compared
-        res = True
+            return False
         for d in ds:
             if d[2] == "assign":
                 rv = d[3][2]
                 k = rv[0]
                 if k == "use":
-                    res = res and self.ok(rv[1], at, depth + 1)
+                    good = self.ok(rv[1], at, depth + 1, visiting)
                 elif k == "cast":
-                    res = res and self.ok(rv[2], at, depth + 1)
-                elif k == "bin" and rv[1] in ARITH:
-                    res = res and self.ok(rv[2], at, depth + 1) and self.ok(rv[3], at, depth + 1)
-                elif k in ("un",):
-                    res = res and self.ok(rv[2], at, depth + 1)
+                    good = self.ok(rv[2], at, depth + 1, visiting)
+                elif k == "bin":
+                    op = rv[1].replace("WithOverflow", "").replace("Unchecked", "")
+                    if op in ("Add", "Mul", "BitOr", "Shl"):
+                        good = self.ok(rv[2], at, depth + 1, visiting) and self.ok(rv[3], at, depth + 1, visiting)
+                    elif op in ("Sub", "Div", "Shr"):
+                        good = self.ok(rv[2], at, depth + 1, visiting)
+                    elif op in ("Rem", "BitAnd"):
+                        good = self.ok(rv[2], at, depth + 1, visiting) or self.ok(rv[3], at, depth + 1, visiting)
+                    else:
+                        good = False
+                elif k == "un":
+                    good = self.ok(rv[2], at, depth + 1, visiting)
+                elif k == "agg":
+                    good = all(self.ok(x, at, depth + 1, visiting) for x in rv[2])
                 else:
-                    res = False
+                    good = False
             elif d[2] == "call":
                 c = callee(d[3])
                 nm = c["fn"] if c else ""
                 short = nm.split("::")[-1]
-                if short in ("min",) or nm.endswith("core::cmp::min"):
-                    res = res and any(self.ok(a, at, depth + 1) for a in d[3][2])
+                args = d[3][2]
+                if short == "min":
+                    good = any(self.ok(a, at, depth + 1, visiting) for a in args)
                 elif short in ("len", "width", "height", "stride", "size_of", "align_of", "trailing_zeros", "leading_zeros", "ilog2", "count_ones"):
-                    res = res and True
-                elif short in ("div_ceil", "next_multiple_of", "saturating_sub", "wrapping_sub", "abs_diff", "max", "checked_sub", "unwrap", "branch"):
-                    res = res and all(self.ok(a, at, depth + 1) for a in d[3][2])
+                    good = True
+                elif short in ("saturating_sub", "wrapping_sub", "checked_sub", "unwrap", "branch", "unwrap_or", "div_ceil", "clone"):
+                    good = bool(args) and self.ok(args[0], at, depth + 1, visiting)
+                elif short in ("max", "next_multiple_of", "abs_diff", "checked_add", "saturating_add", "checked_mul"):
+                    good = all(self.ok(a, at, depth + 1, visiting) for a in args)
                 else:
-                    res = False
-            elif d[2] == "partial":
-                res = res and True
-            if not res:
+                    good = False
+            else:
+                good = True
+            if not good:
                 return False
-        return res
+        return True
 
 
 # reviewed exceptions of the argument-guard rule: (function, argument) -> reason
@@ -236,6 +311,10 @@ GRID_ACCEPTED = {
         "on the `width == 0` path height is unconstrained, but a zero-width view never dereferences (every access needs x < width); "
         "the non-empty path is bounded by assert!(buf.len() >= stride * (height - 1) + width)",
     ("jxl_grid::shared_subgrid::SharedSubgrid::<'g, V>::from_buf", "height"): "same as MutableSubgrid::from_buf",
+    ("jxl_grid::mutable_subgrid::MutableSubgrid::<'g, V>::from_buf", "width"):
+        "bounded by assert!(width <= stride) and the length assert on the non-empty path; on the `width == 0 || height == 0` path the view is empty",
+    ("jxl_grid::mutable_subgrid::MutableSubgrid::<'g, V>::from_buf", "stride"):
+        "bounded by the length assert on the non-empty path; on the empty path no element is ever addressed",
 }
 
 UNSAFE_INDEXED = ("get_ptr_unchecked", "add", "offset", "sub", "from_raw_parts", "from_raw_parts_mut", "new", "get_unchecked", "get_unchecked_mut")
